@@ -79,8 +79,50 @@ def _order_sweep(case):
     return {"nontrivial": True, "labels": ["order-sweep"], "counts": {"cross_process_stream_comparisons": compared}, "key": ["order-sweep"]}
 
 
+_CLI_SCREEN = {"arity": 2, "control": "ctl", "ns": 2, "nt": 4, "observed": ["p0", "p1"], "rows": [
+    {"s": "s0", "p": "p0", "t": ["t0", "t1"], "d": [1.0, 1.0], "o": 0.3}, {"s": "s1", "p": "p0", "t": ["t1", "t0"], "d": [2.0, 1.0], "o": 0.6},
+    {"s": "s0", "p": "p1", "t": ["t0", "ctl"], "d": [1.0, 0.0], "o": 0.7}, {"s": "s1", "p": "p1", "t": ["ctl", "t1"], "d": [0.0, 1.0], "o": 0.45},
+    {"s": "s0", "p": "p2", "t": ["t1", "t1"], "d": [1.0, 2.0], "o": 0.5}]}
+
+
+def _check_cli(case):
+    """the train_model command is the production caller of sampling.sample: the collection it writes for (b, t, n, seed, n_chains, chain)
+    holds exactly the samples a direct call records for those values - a burn-in of 0 included"""
+    from batchie import sampling
+    from batchie.core import ThetaHolder
+    from batchie.data import ExperimentSpace
+    from batchie.models.sparse_combo import SparseDrugCombo
+    from vf import tmp
+    from vf.cli import run_cli, warm
+
+    warm()
+    tm, sm = S.space_mappings(2, 4)
+    screen = S.build_screen(_CLI_SCREEN, treatment_mapping=tm, sample_mapping=sm)
+    b, t, n = case["b"], case["t"], case["n"]
+    seed, n_chains, chain = case["seed"], case["n_chains"], case["chain"]
+    sfile, ofile = tmp.fresh("screen.h5"), tmp.fresh("thetas.h5")
+    try:
+        screen.save_h5(sfile)
+        with np.errstate(all="ignore"):
+            run_cli("train_model", ["--data", sfile, "--model", "SparseDrugCombo", "--model-param", "n_embedding_dimensions=2", "--n-samples", n, "--n-burnin", b, "--thin", t, "--n-chains", n_chains, "--chain-index", chain, "--seed", seed, "--output", ofile], verbose=case.get("verbose", False))
+            got = ThetaHolder.load_h5(ofile)
+            model = SparseDrugCombo(experiment_space=ExperimentSpace.from_screen(screen), n_embedding_dimensions=2)
+            model.add_observations(screen.subset_observed())
+            ref = sampling.sample(model=model, results=ThetaHolder(n_thetas=n), seed=seed, n_chains=n_chains, chain_index=chain, n_burnin=b, thin=t)
+    finally:
+        tmp.cleanup(sfile, ofile)
+    require(len(got.thetas) == n, "cli.count", lambda: "train_model wrote %d samples for --n-samples %d" % (len(got.thetas), n))
+    for k_, (a_, r_) in enumerate(zip(got.thetas, ref.thetas)):
+        da, dr = a_.private_parameters_dict(), r_.private_parameters_dict()
+        same = sorted(da) == sorted(dr) and all(S.same_bits(np.asarray(da[x_], dtype=float), np.asarray(dr[x_], dtype=float)) for x_ in da)
+        require(same, "cli.same_samples_as_direct_call", lambda: "train_model --n-burnin %d --thin %d --n-samples %d --seed %d --n-chains %d --chain-index %d: sample %d differs from the one a direct sampling.sample call with these values records" % (b, t, n, seed, n_chains, chain, k_))
+    return {"nontrivial": b == 0 or t > 1, "labels": ["cli", "cli.b=0" if b == 0 else "cli.b>0"]}
+
+
 def exhaustive(tier):
     yield {"kind": "order-sweep"}
+    for b, t, n, v in ((0, 1, 2, False), (0, 2, 3, True), (1, 1, 1, False), (2, 3, 2, True)):
+        yield {"kind": "cli", "b": b, "t": t, "n": n, "seed": 11, "n_chains": 2, "chain": 1, "verbose": v}
     for b in range(0, 7):
         for t in range(1, 5):
             for n in range(1, 6):
@@ -89,7 +131,7 @@ def exhaustive(tier):
 
 @st.composite
 def _case(draw):
-    kind = draw(st.sampled_from(["mcmc"] * 6 + ["vi", "real"]))
+    kind = draw(st.sampled_from(["mcmc"] * 12 + ["vi", "vi", "real", "real", "cli"]))
     n_chains = draw(st.integers(1, 6))
     chain = draw(st.integers(0, n_chains - 1))
     other = draw(st.integers(0, n_chains - 1))
@@ -107,6 +149,9 @@ def _case(draw):
         "t2": draw(st.integers(1, 3)),
         "n2": draw(st.integers(1, 3)),
     }
+    if kind == "cli":
+        c["b"], c["t"], c["n"], c["seed"] = min(c["b"], 3), min(c["t"], 3), min(c["n"], 3), seed % (2**31)
+        c["verbose"] = draw(st.booleans())
     if kind == "real":
         c["screen"] = draw(S.simple_screen(n_rows=(2, 8), allow_same=False, obs=st.floats(min_value=0.05, max_value=0.95)))
         c["b"] = min(c["b"], 3)
@@ -217,6 +262,8 @@ def check_case(case):
 
     if case["kind"] == "order-sweep":
         return _order_sweep(case)
+    if case["kind"] == "cli":
+        return _check_cli(case)
     Counting, CountingVI, StepTheta = _models()
     b, t, n = case["b"], case["t"], case["n"]
     seed, n_chains, chain = case["seed"], case["n_chains"], case["chain"]
